@@ -23,6 +23,18 @@ def mul (x y : BOp α) : Except Label (BOp α) :=
     + ((one - y.a) * x.b * y.u + (one - x.b) * y.b * x.u) / (one - a)
   BOp.tryNew b d u a
 
+/-- `BOpinion::mul` after repair 19ab0b8 and before the cancellation repair: the divisor `1 - ax*ay` is evaluated as
+    `1.0 - a` from the already rounded product `a` (catastrophic cancellation when both base rates approach 1) -/
+def mulCancel (x y : BOp α) : Except Label (BOp α) :=
+  let one : α := Scalar.one
+  let a := x.a * y.a
+  let b := x.b * y.b
+    + ((one - x.a) * y.a * x.b * y.u + (one - y.a) * x.a * y.b * x.u) / (one - a)
+  let d := x.d + y.d - x.d * y.d
+  let u := x.u * y.u
+    + ((one - y.a) * x.b * y.u + (one - x.a) * y.b * x.u) / (one - a)
+  BOp.tryNew b d u a
+
 /-- `BOpinion::comul` (src/bi.rs:178-189) -/
 def comul (x y : BOp α) : Except Label (BOp α) :=
   let one : α := Scalar.one
